@@ -474,13 +474,15 @@ package boltz
 //@   props C02 C14
 //@   requires scanner.cursor != nil && scanner.rowCursor != nil && scanner.filter != nil && scanner.store != nil
 //@   requires 0 <= curPos[scanner.cursor] && curPos[scanner.cursor] <= curLen[scanner.cursor]
-//@   requires 0 <= scanner.offset && scanner.offset <= max(scanner.targetOffset, 0) && 0 <= scanner.collected && scanner.collected < MaxInt64
+//@   requires 0 <= scanner.offset && scanner.offset <= max(scanner.targetOffset, 0) && 0 <= scanner.collected
 //@   modifies scanner.current, scanner.offset, scanner.collected, curPos[scanner.cursor], scanner.rowCursor.currentRow, symRow[scanner.rowCursor]
+//@   ensures[state-stays-usable] 0 <= curPos[scanner.cursor] && curPos[scanner.cursor] <= curLen[scanner.cursor] && 0 <= scanner.offset && scanner.offset <= max(scanner.targetOffset, 0) && 0 <= scanner.collected
 //@   ensures[limit-reached] old(scanner.collected) >= scanner.targetLimit ==> scanner.current == nil && scanner.collected == old(scanner.collected) && scanner.offset == old(scanner.offset)
 //@   ensures[produced] scanner.current != nil ==> old(curPos[scanner.cursor]) < curPos[scanner.cursor] && curPos[scanner.cursor] <= curLen[scanner.cursor] && str(scanner.current) == curSeq[scanner.cursor][curPos[scanner.cursor]-1] && matches(curSeq[scanner.cursor], scanner.filter, scanner.store, curPos[scanner.cursor]-1) && scanner.collected == old(scanner.collected) + 1 && scanner.offset >= scanner.targetOffset
 //@   ensures[offset-consumed] scanner.current != nil ==> scanner.offset == old(scanner.offset) + cnt(curSeq[scanner.cursor], scanner.filter, scanner.store, curPos[scanner.cursor]-1) - cnt(curSeq[scanner.cursor], scanner.filter, scanner.store, old(curPos[scanner.cursor]))
 //@   ensures[exhausted] scanner.current == nil && old(scanner.collected) < scanner.targetLimit ==> curPos[scanner.cursor] == curLen[scanner.cursor] && scanner.collected == old(scanner.collected) && scanner.offset == old(scanner.offset) + cnt(curSeq[scanner.cursor], scanner.filter, scanner.store, curLen[scanner.cursor]) - cnt(curSeq[scanner.cursor], scanner.filter, scanner.store, old(curPos[scanner.cursor]))
 //@   invariant 1: cursor == scanner.cursor && rowCursor == scanner.rowCursor && old(curPos[scanner.cursor]) <= curPos[scanner.cursor] && curPos[scanner.cursor] <= curLen[scanner.cursor]
+//@   invariant 1: old(scanner.collected) >= scanner.targetLimit ==> curPos[scanner.cursor] == old(curPos[scanner.cursor])
 //@   invariant 1: scanner.collected == old(scanner.collected) && scanner.offset == old(scanner.offset) + cnt(curSeq[scanner.cursor], scanner.filter, scanner.store, curPos[scanner.cursor]) - cnt(curSeq[scanner.cursor], scanner.filter, scanner.store, old(curPos[scanner.cursor])) && scanner.offset <= max(scanner.targetOffset, 0)
 
 // Seek(val): the scanner then stands on a matching element that is not before val (or is exhausted)
@@ -488,11 +490,11 @@ package boltz
 //@   props C14
 //@   requires scanner.cursor != nil && scanner.rowCursor != nil && scanner.filter != nil && scanner.store != nil
 //@   requires 0 <= curPos[scanner.cursor] && curPos[scanner.cursor] <= curLen[scanner.cursor]
-//@   requires 0 <= scanner.offset && scanner.offset <= max(scanner.targetOffset, 0) && 0 <= scanner.collected && scanner.collected < MaxInt64
+//@   requires 0 <= scanner.offset && scanner.offset <= max(scanner.targetOffset, 0) && 0 <= scanner.collected
 //@   requires !curDesc[scanner.cursor]
 //@   modifies scanner.current, scanner.offset, scanner.collected, curPos[scanner.cursor], scanner.rowCursor.currentRow, symRow[scanner.rowCursor]
 //@   ensures[at-or-after] scanner.current != nil ==> !(str(scanner.current) < str(val))
-//@   invariant 1: scanner.cursor != nil && scanner.rowCursor != nil && scanner.filter != nil && scanner.store != nil && 0 <= curPos[scanner.cursor] && curPos[scanner.cursor] <= curLen[scanner.cursor] && 0 <= scanner.offset && scanner.offset <= max(scanner.targetOffset, 0) && 0 <= scanner.collected && scanner.collected < MaxInt64
+//@   invariant 1: scanner.cursor != nil && scanner.rowCursor != nil && scanner.filter != nil && scanner.store != nil && 0 <= curPos[scanner.cursor] && curPos[scanner.cursor] <= curLen[scanner.cursor] && 0 <= scanner.offset && scanner.offset <= max(scanner.targetOffset, 0) && 0 <= scanner.collected
 
 // ValidIdsCursors: the ids of the wrapped cursor for which the (extended) store has data
 //@ func (Store).GetEntityBucket
